@@ -11,10 +11,12 @@ type vScriptConn struct {
 	net.Conn
 	reads, maxReads int
 	got             []byte // everything delivered so far
+	eof             bool   // the stream has ended (Read returned io.EOF)
 }
 
 func (c *vScriptConn) Read(p []byte) (int, error) {
 	if c.reads >= c.maxReads {
+		c.eof = true
 		return 0, io.EOF
 	}
 	c.reads++
@@ -59,7 +61,12 @@ func VerifHarness_C10_readfrom_step() {
 	sizeA, kindA := vRefFrame(all)
 	vAssertIf(ok, vAnd(kindA != 0, n == sizeA), "C10.readfrom_result_is_reference_frame")
 	vAssertIf(vAnd(ok, i < n), vAt(payload, i) == vAt(all, i), "C10.readfrom_result_bytes_intact")
+	// (d) completeness: a frame that is complete in the bytes seen so far is returned, and an unfinished one
+	// (a valid prefix) fails only because the stream ended - never as "invalid", whatever its size
+	vAssertIf(vAnd(kindA != 0, len(all) >= sizeA), ok, "C10.complete_frame_in_the_stream_is_returned")
+	vAssertIf(vAnd(!ok, vAnd(kindA != 0, len(all) < sizeA)), conn.eof, "C10.unfinished_frame_fails_only_when_the_stream_ends")
 	vCover(vAnd(ok, conn.reads == 2), "C10.cover_frame_completed_by_second_read")
+	vCover(vAnd(ok, vAnd(conn.reads >= 1, n > 65536)), "C10.cover_frame_above_65536_bytes_completed_by_a_read")
 	vReach("end")
 }
 
